@@ -132,6 +132,15 @@ func (fc *FnCtx) staticCall(res ssa.Value, f *ssa.Function, c *ssa.CallCommon, i
 			fc.setVal(res, v)
 		}
 	}
+	if con == nil && f.Name() == "Header" && f.Signature.Recv() != nil && res != nil && typeName(derefType(res.Type())) == "RR_Header" && len(c.Args) == 1 {
+		// (*T).Header() of a record type: the address of its first field, i.e. of the record itself
+		// (every implementation is checked by checkHeaderIdentity)
+		fc.e.checkHeaderIdentity()
+		recv := fc.val(c.Args[0])
+		fc.nilCheck(recv.S(), pos, c.Args[0])
+		setRes(mkVal(res.Type(), []string{recv.S()}))
+		return
+	}
 	if con == nil {
 		if m := fc.builtinModel(name, res, c, in); m {
 			return
@@ -204,6 +213,9 @@ func (fc *FnCtx) applyContract(con *Contract, names []string, args []Val, sig *t
 	rv := freshRes()
 	if con.Fresh && len(rv.C) > 0 {
 		fc.assumeFreshRefs(rv)
+	}
+	if con.Deterministic && len(rv.C) > 0 {
+		fc.assumeDeterministic(con.Name, args, rv, &pre)
 	}
 	results := sig.Results()
 	envPost := &Env{fc: fc, heap: &fc.cur, old: &pre, oldLookup: argLookup,
